@@ -615,6 +615,8 @@ class StmtMixin:
         sub = self.pure_eval()
         sub.entry_env = cenv
         sub.old_heap = dict(self.path.heap)
+        # old() in the callee's clauses: the registries as they are at the call
+        sub.old_globals = {g: self.global_map_array(g) for g in getattr(c, "global_maps", {})}
         # preconditions
         if not self.pure:
             for cl in c.requires:
@@ -643,6 +645,16 @@ class StmtMixin:
         k = 0 if self.pure else self.path.choose(len(outcomes))
         out = outcomes[k]
         self.heap.havoc_frame(c, cenv, sub)
+        for gname in getattr(c, "global_maps", {}):
+            # registry entries the callee may change (its own frame obligation): those keys get an unknown new value
+            arr = self.global_map_array(gname)
+            if gname not in getattr(c, "global_map_keys", {}):
+                arr = self.path.fresh("G." + gname + "@hv", arr.sort())
+            else:
+                for kx in c.global_map_keys[gname]:
+                    kt = sub.ev(ast.parse(kx, mode="eval").body, cenv).t
+                    arr = z3.Store(arr, kt, self.path.fresh("G." + gname + ".entry", z3.IntSort()))
+            self.path.__dict__["globals"]["map:" + gname] = arr
         if out != "ok":
             for cl in c.exsures[out]:
                 t = sub.truth(sub.ev(ast.parse(cl, mode="eval").body, cenv))
@@ -839,6 +851,15 @@ def _run_path(ev, ctx, path, contract, mod, fn, res):
             penv.vars["stdout"] = VStr(path.stdout)
         else:
             penv.vars["stdout"] = VStr(S(""))
+        for gname, keys in getattr(contract, "global_map_keys", {}).items():
+            g = path.__dict__.get("globals", {})
+            if "map:" + gname in g:
+                kk = z3.Const("k!gm", z3.IntSort())
+                sub0 = ev.pure_eval()
+                kts = [sub0.ev(ast.parse(kx, mode="eval").body, entry).t for kx in keys]
+                same = z3.ForAll([kk], z3.Implies(z3.And(*[kk != t for t in kts]) if kts else z3.BoolVal(True),
+                                                  g["map:" + gname][kk] == g["map:" + gname + "@entry"][kk]))
+                ctx.oblige(path, "frame", f"registry {gname}: only the entries for {', '.join(keys)} may change", same, fn)
         if exit_kind == "return":
             ev.run_ghost(contract.ghost_end, penv)
             ev.check_clauses(contract.ensures, penv, "post", fn)
